@@ -52,9 +52,9 @@ MODES = ["url", "url", "file+url", "file-nourl"]
 
 
 def generate(rng, tier, index):
-    ir = G.gen_schema(rng, {"handlers": False})
+    ir, lines = G.gen_pair(rng, {"handlers": False},
+                           {"full": rng.choice([0.5, 0.8, 1.0])})
     xml = G.render_schema(ir)
-    lines = G.gen_text(rng, ir, {"full": rng.choice([0.5, 0.8, 1.0])})
     mode = rng.choice(MODES)
     ncuts = rng.choice([0, 1, 1, 2, 3])
     uni = layout.cut(rng, lines, ncuts=ncuts, decoys=False)
